@@ -26,6 +26,8 @@ class RunCtx:
         self.clock = None  # seams.FakeClock for single-process timed runs
         self.eval_cost = 0.0  # simulated seconds charged per posterior evaluation
         self.grad_cost = 0.0
+        self.eval_budget = None  # evaluations left for the operation in progress (None = unlimited)
+        self.eval_stalls = {}  # evaluation number -> cost multiplier (injected slow step)
         self.monitors = []  # callables(kind, tag, theta) invoked at every evaluation
 
     def next_seq(self):
@@ -34,6 +36,10 @@ class RunCtx:
 
     def child_seed(self, *path):
         return np.random.SeedSequence([self.seed & 0xFFFFFFFF, (self.seed >> 32) & 0xFFFFFFFF, *path])
+
+
+class Runaway(Exception):
+    """An operation used up its evaluation budget without completing (liveness guard)."""
 
 
 CTX = None
